@@ -156,10 +156,10 @@ impl Gatekeeper {
         &self,
         user_id: UserId,
     ) -> Result<RegistrationReceipt, MaxSlotsReached> {
-        let block_count = self.last_known_block_height.load(Ordering::Acquire);
-
         // TODO: For now, new calls to `add_update_user` add subscription_slots to the current count and reset the expiry time
         let mut registered_users = self.registered_users.lock().unwrap();
+        // (read once the users are locked: a block being processed updates it before releasing them)
+        let block_count = self.last_known_block_height.load(Ordering::Acquire);
         let user_info = match registered_users.get_mut(&user_id) {
             // User already exists, updating the info
             Some(user_info) => {
@@ -256,10 +256,18 @@ impl Gatekeeper {
 
     /// Gets a map of outdated users. Outdated users are those whose subscription has expired and the renewal grace period
     /// has already passed ([expiry_delta](Self::expiry_delta)).
+    #[cfg(test)]
     pub(crate) fn get_outdated_users(&self, block_height: u32) -> Vec<UserId> {
-        self.registered_users
-            .lock()
-            .unwrap()
+        self.outdated_users(&self.registered_users.lock().unwrap(), block_height)
+    }
+
+    /// Same as [Self::get_outdated_users] for callers that hold the users lock already.
+    fn outdated_users(
+        &self,
+        registered_users: &HashMap<UserId, UserInfo>,
+        block_height: u32,
+    ) -> Vec<UserId> {
+        registered_users
             .iter()
             // NOTE: Ideally there won't be a user with `block_height > subscription_expiry + expiry_delta`, but
             // this might happen if we skip a couple of block connections due to a force update.
@@ -319,23 +327,25 @@ impl chain::Listen for Gatekeeper {
         log::info!("New block received: {}", header.block_hash());
 
         // Expired user deletion is delayed. Users are deleted when their subscription is outdated, not expired.
-        let outdated_users = self.get_outdated_users(height);
+        // The users lock is held from the moment the outdated users are worked out until they are gone (from memory and from the
+        // database) and the height has been updated. Otherwise a user renewing in between would be removed nonetheless, and one
+        // registering again in between would be taken for a new one (clashing with the row that is still in the database) and
+        // be given a subscription starting at the previous height.
+        let mut registered_users = self.registered_users.lock().unwrap();
+        let outdated_users = self.outdated_users(&registered_users, height);
         if !outdated_users.is_empty() {
-            // Remove the outdated users from memory first. The users lock is kept until they are gone from the database too:
-            // a user registering again in between would be taken for a new one and clash with the row that is still there.
-            let mut registered_users = self.registered_users.lock().unwrap();
             // Removing each outdated user in a loop is more efficient than retaining non-outdated users
             // because retaining would loop over all the available users which is always more than the outdated ones.
             for outdated_user in outdated_users.iter() {
                 registered_users.remove(outdated_user);
             }
             self.dbm.lock().unwrap().batch_remove_users(&outdated_users);
-            drop(registered_users);
         }
 
         // Update last known block height
         self.last_known_block_height
             .store(height, Ordering::Release);
+        drop(registered_users);
     }
 
     /// Handles reorgs in the [Gatekeeper]. Simply updates the last_known_block_height.
